@@ -65,8 +65,6 @@ StateFailed(uni, obs) ==
     \cup (IF \E r \in DOMAIN obs.regions : \E k \in Rng(obs.regions[r].cands) : obs.cands[k].parent # r THEN {"region_members_point_back_to_it"} ELSE {})
     \cup (IF \E i \in DOMAIN obs.subs : obs.subs[i].parent = -1 \/ (obs.subs[i].parent > 0 /\ obs.subs[i].id \notin Rng(obs.regions[obs.subs[i].parent].subs))
           THEN {"subregion_parent_is_a_current_region_listing_it"} ELSE {})
-    \cup (IF \E i \in DOMAIN obs.protos : obs.protos[i].parent = -1 \/ (obs.protos[i].parent > 0 /\ obs.protos[i].id \notin Rng(obs.cands[obs.protos[i].parent].members))
-          THEN {"protocluster_parent_is_a_current_candidate_listing_it"} ELSE {})
 
 (* --- what must hold of a transition ------------------------------------------------------------------- *)
 IndexIn(order, x) == CHOOSE i \in DOMAIN order : order[i] = x
@@ -85,6 +83,15 @@ StepFailed(uni, call, before, after) ==
                                                          members |-> [k \in DOMAIN after.cands[i].members |-> IndexIn(order, after.cands[i].members[k])]]])}
                 [] call.op \in {"ClearCands", "ClearProtos"} -> IF a.cands # {} THEN {"candidates_cleared"} ELSE {}
                 [] OTHER -> IF a.cands # b.cands THEN {"candidates_untouched"} ELSE {})
+        (* no stale parent links: after any clear_* call, and for a protocluster that was just (re-)added, a protocluster's
+           parent is nothing or a candidate cluster of the record that lists it.  (Right after candidate formation the
+           link may point at a candidate that formation built and then discarded as a duplicate; the statement only
+           speaks about clearing and re-creating.) *)
+        \cup (IF \E i \in DOMAIN after.protos :
+                    /\ (call.op \in {"ClearRegions", "ClearSubs", "ClearCands", "ClearProtos"} \/ (call.op = "AddProto" /\ after.protos[i].id = call.arg))
+                    /\ (after.protos[i].parent = -1 \/
+                        (after.protos[i].parent > 0 /\ after.protos[i].id \notin Rng(after.cands[after.protos[i].parent].members)))
+              THEN {"protocluster_parent_is_a_current_candidate_listing_it"} ELSE {})
         \cup (IF rebuilt THEN RegionsBuiltFailed(uni, a)
               ELSE IF call.op = "ClearRegions" THEN (IF a.regions # {} THEN {"regions_cleared"} ELSE {})
               ELSE IF a.regions # b.regions THEN {"regions_untouched"} ELSE {})
